@@ -109,6 +109,68 @@ CHECKS.update({
     },
 })
 
+CHECKS.update({
+    'C10': {
+        'category': 'exploration',
+        'technique': 'metamorphic runtime monitoring of parse_script: model equality between the canonical layout and seeded layout rewrites (no reference model needed)',
+        'text': ('Generated programs and the seven shipped .bare scripts are re-laid-out (LF/CRLF, string vs chunk list/tuple/generator with '
+                 'all chunkings up to 6 cuts for short texts, blank/comment insertion also inside continued lines, indentation, trailing '
+                 'blanks, continuation at any blank outside strings/bracket names/<urls>); every rewrite must parse to the identical '
+                 'model, and parse A / parse B / parse A again must reproduce A.'),
+        'note': 'Assumes a blank outside string literals, bracket names and <urls> is a place where a space is allowed; F13 (return + trailing blanks) repaired by fix commit 3772383.',
+        'design_ref': '5/C10',
+    },
+    'C11': {
+        'category': 'exploration',
+        'technique': 'order-axiom monitor (range, reflexivity, antisymmetry, transitivity) + independent comparator over an exhaustive pair/triple enumeration of a value pool; consumer scripts; icontract antisymmetry contract on value_compare',
+        'text': ('All ordered pairs of a >130-value pool of all nine types in three time zones, all triples of a sub-pool plus random triples, '
+                 'and consumer scripts (six operators, systemCompare, arraySort incl. stability and permutation by identity, dataSort '
+                 'multi-key with directions, mathMin/mathMax, arrayIndexOf/arrayLastIndexOf) are checked against the order axioms and an '
+                 'independent comparator.'),
+        'note': 'Trusts refval.rcmp; NaN excluded as stated; no cyclic containers.',
+        'design_ref': '5/C11',
+    },
+    'C12': {
+        'category': 'exploration',
+        'technique': 'differential runtime monitoring: every library function / operator executed on the int spelling and on the float spelling of the same arguments, comparing result, failure, log and post-call arguments',
+        'text': ('Every library function except clock/random/fetch is called on steered and unguided argument lists in both number spellings '
+                 '(recursively inside containers); all operators on an integral grid in the four int/float spellings; scripts whose float '
+                 'literals and for-loop index feed index/count/size/radix/digit positions; all must agree under BareScript equality.'),
+        'note': 'Results above 2**53 compared with 1e-12 relative tolerance; argument models only steer generation; F1/F2 repaired by fix commits 710d58a/76fca0e; F15 (digits >= 23) is a listed known finding.',
+        'design_ref': '5/C12',
+    },
+    'C13': {
+        'category': 'exploration',
+        'technique': 'round-trip monitor over random IEEE-754 bit patterns and boundary classes through the Python API and script paths, with own text-shape regexes; parser near-miss table',
+        'text': ('Random doubles, powers of ten with several mantissas, integers around 2^53/1e15/1e16/1e21, subnormals and zeros are '
+                 'stringified through value_string, string concatenation, stringNew, arrayJoin and systemLog, parsed back with '
+                 'numberParseFloat and as a source literal; integral values must print as integers; near-misses and random strings must '
+                 'not yield non-finite or partial values.'),
+        'note': 'Integral values >= 1e16 only need to be free of a trailing-zero fraction; Python-liberal numerals are not used as near-misses.',
+        'design_ref': '5/C13',
+    },
+    'C14': {
+        'category': 'exploration',
+        'technique': 'round-trip monitor with the standard json parser as independent oracle, key-order and number-shape checks on the text, collision table over all serialised texts; exhaustive small strings',
+        'text': ('Every string of length <= 3 (quick) / <= 4 (thorough) over {a . 0 , ] }} in value, element, object-value and key position '
+                 'and random JSON values to depth 5 with hostile characters and C13 numbers are serialised (indent none/1..8) and parsed '
+                 'back by json.loads and jsonParse; keys must be sorted, integral numbers fraction-free, and unequal values must never '
+                 'share a text.'),
+        'note': 'Trusts the standard library json parser; F3 (clean-up regexes firing inside strings) repaired by fix commit 503cb62.',
+        'design_ref': '5/C14',
+    },
+    'C15': {
+        'category': 'exploration',
+        'technique': 'model-based runtime monitoring: generated scripts log result and whole aliased pool after every call; list/dict/str reference model replayed on a shadow pool as oracle',
+        'text': ('Histories of 30 library calls over a pool of aliased, nestable containers with float-literal indices in -2..len+2 and '
+                 'wrong-typed/missing/surplus arguments are executed as scripts; after each step the result and every pool entry must '
+                 'equal the reference model (so mutations are visible through every alias and failing calls change nothing); regexEscape '
+                 'and urlEncode* are checked against neighbours and percent-decoding.'),
+        'note': 'Trusts vf/ref_seq.py; arrayDelete return value and empty search/separator strings not asserted; F14 classified by the bool-accepting model variant.',
+        'design_ref': '5/C15',
+    },
+})
+
 NOT_YET = {}
 
 
